@@ -7,10 +7,11 @@ from simlib import evmodel, models, multi, vt
 from simlib.models import Tie
 
 
-def compare(sc, build, model, out, desc, norm_got=None, max_ties=5):
-    w, rec = multi.run_real(sc, build)
+def compare(sc, build, model, out, desc, norm_got=None, max_ties=5, got_fn=None, want_fn=None, follow=False):
+    w, rec = multi.run_real(sc, build, follow=follow)
     got_raw = rec.events_kv()
-    got = models.norm(norm_got(got_raw) if norm_got else got_raw)
+    got = got_fn(rec) if got_fn else models.norm(norm_got(got_raw) if norm_got else got_raw)
+    want_fn = want_fn or (lambda eng: models.norm(eng.out))
     out.sim_time = sc["horizon"]
     g = vt.grammar_violation(rec)
     if g:
@@ -28,7 +29,7 @@ def compare(sc, build, model, out, desc, norm_got=None, max_ties=5):
 
     try:
         eng = run(None)
-        wants = [models.norm(eng.out)]
+        wants = [want_fn(eng)]
     except Tie:
         out.probes["tie_scenarios"] += 1
         try:
@@ -43,7 +44,7 @@ def compare(sc, build, model, out, desc, norm_got=None, max_ties=5):
         wants = []
         try:
             for mask in range(1 << k):
-                o = models.norm(run(mask).out)
+                o = want_fn(run(mask))
                 if o not in wants:
                     wants.append(o)
         except Tie:
